@@ -307,6 +307,72 @@ Theorem C13_concat_routing_refuted :
 Proof. exact concat_routing_refuted. Qed.
 Print Assumptions C13_concat_routing_refuted.
 
+(* ---- tenant ownership across an UNCLEAN death + start-up recovery (model SigM.TenantCrash; added after seeded
+   mutant C13j was missed).  After a graceful shutdown every segment is rotated and listed in segmeta.json with its
+   org; after an unclean death the in-memory bookkeeping is gone and start-up rebuilds the searchable segments from
+   the on-disk records alone: segmeta.json and, for every id of GetMyIds and every listed table, the <segkey>.sfm of
+   the still-open segments (initSyncSegMetaForAllIds), taking the org of a recovered segment from the `orgid` field
+   STORED in the record.  [crun ops] = (query state, on-disk records) after ANY sequence of create / ingest+flush /
+   rotate / unclean restart (any id list) / graceful restart / query ops of any organisations. ---- *)
+From SigM Require Import TenantCrash.
+From SigP Require Import TenantCrashProofs.
+
+(* recovery preserves provenance when the stored record carries the org: whatever a search of org X returns after
+   any number of unclean and graceful restarts was ingested by X and lies in an index of the code's expansion *)
+Theorem C13_crash_query_isolation : forall ops X expr i,
+  In i (csearch (crun ops) X expr) ->
+  cingested ops X i /\
+  exists e, In e (evs (fst (crun ops))) /\ e_id e = i /\ e_org e = X /\
+            mem (e_tab e) (expand (fst (crun ops)) X false expr) = true.
+Proof. exact crash_query_isolation. Qed.
+Print Assumptions C13_crash_query_isolation.
+
+Theorem C13_crash_columns_isolation : forall ops X expr p,
+  In p (q_pairs (fst (crun ops)) X expr) ->
+  fst p = X /\ mem (snd p) (expand (fst (crun ops)) X false expr) = true /\
+  exists e, In e (evs (fst (crun ops))) /\ e_org e = X /\ e_tab e = snd p /\ cingested ops X (e_id e).
+Proof. exact crash_columns_isolation. Qed.
+Print Assumptions C13_crash_columns_isolation.
+
+(* every on-disk record start-up rebuilds segments from stores the org and table of the directory it lies in, and
+   holds only events that this org ingested *)
+Theorem C13_crash_records_carry_org : forall ops r,
+  In r (snd (crun ops)) -> r_org r = r_dorg r /\ r_tab r = r_dtab r /\
+  forall i, In i (r_ids r) -> cingested ops (r_dorg r) i.
+Proof. exact crash_records_carry_org. Qed.
+Print Assumptions C13_crash_records_carry_org.
+
+(* every tenant sees after an unclean death + restart exactly what it saw before.  Full statement (no guard):
+     forall ops my X expr i, In i (csearch (fst (cstep (crun ops) (CCrash my))) X expr) <-> In i (csearch (crun ops) X expr)
+   is false by design of the recovery scan, which goes by GetMyIds (C13_crash_uncovered_refuted: a node restarted for
+   org 0 only does not adopt the open segment of org 7).  Guard: the id list of this restart and of every earlier
+   unclean restart of the history contains every org that ingests (covered / crashes_cover); alias-free histories. *)
+Theorem C13_crash_preserves_every_view_guarded : forall ops my X expr i,
+  crashes_cover ops -> covered ops my ->
+  (In i (csearch (fst (cstep (crun ops) (CCrash my))) X expr) <-> In i (csearch (crun ops) X expr)).
+Proof. exact crash_preserves_every_view. Qed.
+Print Assumptions C13_crash_preserves_every_view_guarded.
+
+Theorem C13_crash_uncovered_refuted :
+  exists ops my X expr i, In i (csearch (crun ops) X expr) /\
+                          ~ In i (csearch (fst (cstep (crun ops) (CCrash my))) X expr).
+Proof. exact crash_uncovered_refuted. Qed.
+Print Assumptions C13_crash_uncovered_refuted.
+
+Example C13_crash_guard_satisfiable : crashes_cover orgless_ops /\ covered orgless_ops [0; 7] /\
+                                      csearch (crun orgless_ops) 7 n_a = [1].
+Proof. exact cover_nonvacuous. Qed.
+
+(* refuted for a running .sfm WITHOUT the org field (documentation of seeded/C13j; same step function, writer
+   parameter wr_orgless): org 7 flushes event 1 into index a, unclean death, restart: org 0 is handed event 1 for
+   the expression a although it never ingested it, and org 7, which saw it before the death, no longer does *)
+Theorem C13_crash_orgless_record_refuted :
+  In 1 (csearch (crun_with wr_orgless orgless_ops) 0 n_a) /\ ~ cingested orgless_ops 0 1 /\
+  In 1 (csearch (crun_with wr_orgless [CIngest 7 n_a [1]]) 7 n_a) /\
+  ~ In 1 (csearch (crun_with wr_orgless orgless_ops) 7 n_a).
+Proof. exact orgless_record_refuted. Qed.
+Print Assumptions C13_crash_orgless_record_refuted.
+
 (* ---- ownership is checked before anything is deleted, from the source: on EVERY path through deleteIndex
    (call-order skeleton regenerated from /repo on every run, callees inlined; every branch possible, every loop any
    number of times) each call that deletes by index name — segments, the open segstore, the virtual-table entry —
